@@ -21,7 +21,7 @@ for p in props:
     })
 man = {
     "version": 1,
-    "setup_cmd": "cd /verif && python3 tools/extract.py && (cd lean && lake build) && (cd harness && CARGO_NET_OFFLINE=true cargo build --release --offline) && (cd harness-loom && CARGO_NET_OFFLINE=true cargo build --release --offline)",
+    "setup_cmd": "cd /verif && python3 tools/extract.py && RS2LEAN_NO_ELAB=1 python3 tools/rs2lean.py && (cd lean && lake build) && (cd harness && CARGO_NET_OFFLINE=true cargo build --release --offline) && (cd harness-loom && CARGO_NET_OFFLINE=true cargo build --release --offline)",
     "hooks": {
         "guard": "verif-hooks",
         "enable": "cargo feature: the harness depends on lean_string with features = [\"verif-hooks\"] (path dependency on /repo); harness-loom additionally builds it with RUSTFLAGS=--cfg loom and the crate's loom feature",
@@ -31,7 +31,7 @@ man = {
     },
     "engines": [
         {"name": "lean4-proof+correspondence", "path": "/verif/check", "serves_properties": [p["id"] for p in props],
-         "kind_free_text": "Lean 4 theorems over a hand-written executable model plus translated constants/tables/delegations (tools/extract.py -> lean/LSModel/Generated.lean); model tied to /repo by differential scripts run on the real crate (harness/, shadow heap, String oracles) and on the compiled model driver (lean/Driver.lean)"},
+         "kind_free_text": "Lean 4 theorems over a hand-written executable model plus translated constants/tables/delegations (tools/extract.py -> lean/LSModel/Generated.lean) and the mechanically translated control flow of repr.rs (tools/rs2lean.py -> lean/LSModel/GenRepr.lean, proved equal to the hand model in lean/LSProofs/Gen/*.lean); model tied to /repo by differential scripts run on the real crate (harness/, shadow heap, String oracles) and on the compiled model driver (lean/Driver.lean)"},
     ],
     "checks": checks,
     "not_applicable": [],
